@@ -102,6 +102,8 @@ struct Inner<C> {
     control: Pipeline<C>,
     sink: Rc<MqttShared>,
     inflight: RefCell<HashSet<NonZeroU16>>,
+    /// `QoS 2` publishes acknowledged with PUBREC, waiting for PUBREL
+    received: RefCell<HashSet<NonZeroU16>>,
 }
 
 impl<T, C, E> Dispatcher<T, C, E>
@@ -119,7 +121,12 @@ where
         Self {
             cfg,
             publish,
-            inner: Rc::new(Inner { sink, control, inflight: RefCell::new(HashSet::default()) }),
+            inner: Rc::new(Inner {
+                sink,
+                control,
+                inflight: RefCell::new(HashSet::default()),
+                received: RefCell::new(HashSet::default()),
+            }),
             _t: PhantomData,
         }
     }
@@ -263,7 +270,7 @@ where
                 }
             }
             Decoded::Packet(Packet::PublishRelease { packet_id }, _) => {
-                if self.inner.inflight.borrow().contains(&packet_id) {
+                if self.inner.received.borrow_mut().remove(&packet_id) {
                     self.inner.control(ProtocolMessage::pubrel(packet_id)).await
                 } else {
                     Err(ProtocolError::unexpected_packet(
@@ -374,6 +381,7 @@ where
 
             if let Some(packet_id) = packet_id {
                 if qos2 {
+                    inner.received.borrow_mut().insert(packet_id);
                     Ok(Some(Encoded::Packet(Packet::PublishReceived { packet_id })))
                 } else {
                     inner.inflight.borrow_mut().remove(&packet_id);
